@@ -15,7 +15,7 @@ RULE = ("cases of the generators of C01/C02/C03/C05/C06/C08/C09/C15/C17 (entry p
         "CMRtuCompleteDecomposition / CMRregularCompleteDecomposition / CMRregularRefineDecomposition, "
         "CMRgraphicTest*, CMRnetworkTest*, CMRspTest*/CMRspDecompose*, CMRcamionTestSigns/ComputeSigns, CMRctuTest, "
         "CMRbalancedTest), sampled per stream; for each: every k in 0..N (N = clock reads of the unlimited run; quick "
-        "tier: at most 40 evenly spread k per case) on the ASan+UBSan build; non-trivial = distinct (case, k) in which the "
+        "tier: at most 64 evenly spread k per case; all k for the deep 3-sum family) on the ASan+UBSan build; non-trivial = distinct (case, k) in which the "
         "limited call actually returned CMR_ERROR_TIMEOUT")
 TRUSTED = ["link-time interception of clock() (-Wl,--wrap=clock): read r returns r ticks, from read k on 2000 s more; "
            "TimeoutModel.v states this schedule and the remaining-time rule by hand (not translated from the 88 call sites)",
@@ -84,10 +84,29 @@ def tl_key(api, keyfn, line, code, rec, xline):
 
 def run(ctx):
     cap = 40 if ctx.quick else 600
-    maxk = 40 if ctx.quick else 0
+    maxk = 64 if ctx.quick else 0
     col = Collector(ctx, cap, maxk)
     for name in SOURCES:
         importlib.import_module("props." + name).run(col)
+    # deep decompositions: 3-sums of a graphic and a cographic matroid (regular, 3-connected, neither graphic nor
+    # cographic) drive the nested-minor sequence and the 3-separation search, whose clock reads come late (read 300 of
+    # 325, say); every k is injected for them
+    import gen
+    drng = ctx.rng.fork("c18-deep")
+    want = 30 if ctx.quick else 300
+    tries = 0
+    deep = 0
+    while deep < want and tries < 50 * want:
+        tries += 1
+        M = gen.threesum_graphic_cographic(drng)
+        if not M or len(M) * len(M[0]) > (80 if ctx.quick else 140):
+            continue
+        c = gen.rand_cfg(drng, stopflags=False, wantSub=0)
+        c[0], c[1] = 0, 0
+        api = ["regular", "tu", "tree"][deep % 3]
+        inner = gen.cfg_line(c) + (" %d " % (deep % 2) if api == "tree" else " ") + vlib.mat_line(M)
+        col.lines.append(("%d 0 %s" % (SUBS[api], inner), api, None))
+        deep += 1
     lines = [l for l, _, _ in col.lines]
     exe = ctx.drive("dbg")
     env = dict(os.environ)
